@@ -129,7 +129,7 @@ static int is_valid_acf_packet(uint8_t* acf_pdu)
 static int new_packet(int sk_fd, int can_socket) {
 
     int res = 0;
-    uint64_t proc_bytes = 0, msg_proc_bytes = 0;
+    uint64_t proc_bytes = 0, msg_proc_bytes = 0, recv_bytes;
     uint32_t udp_seq_num;
     uint16_t msg_length, can_payload_length, acf_msg_length;
     uint8_t subtype;
@@ -144,13 +144,22 @@ static int new_packet(int sk_fd, int can_socket) {
         return 0;
     }
 
+    recv_bytes = res;
     if (use_udp) {
+        if (recv_bytes < AVTP_UDP_HEADER_LEN) {
+            return 0;
+        }
         udp_pdu = pdu;
         udp_seq_num = Avtp_Udp_GetEncapsulationSeqNo((Avtp_Udp_t *)udp_pdu);
         cf_pdu = pdu + AVTP_UDP_HEADER_LEN;
         proc_bytes += AVTP_UDP_HEADER_LEN;
     } else {
         cf_pdu = pdu;
+    }
+
+    // The datagram must at least hold the shorter control format header
+    if (recv_bytes < proc_bytes + AVTP_NTSCF_HEADER_LEN) {
+        return 0;
     }
 
     subtype = Avtp_CommonHeader_GetSubtype((Avtp_CommonHeader_t*)cf_pdu);
@@ -160,6 +169,9 @@ static int new_packet(int sk_fd, int can_socket) {
     }
 
     if (subtype == AVTP_SUBTYPE_TSCF){
+        if (recv_bytes < proc_bytes + AVTP_TSCF_HEADER_LEN) {
+            return 0;
+        }
         proc_bytes += AVTP_TSCF_HEADER_LEN;
         msg_length = Avtp_Tscf_GetStreamDataLength((Avtp_Tscf_t*)cf_pdu);
     } else {
@@ -167,7 +179,17 @@ static int new_packet(int sk_fd, int can_socket) {
         msg_length = Avtp_Ntscf_GetNtscfDataLength((Avtp_Ntscf_t*)cf_pdu);
     }
 
+    // The announced ACF messages must lie inside the received datagram
+    if (proc_bytes + msg_length > recv_bytes) {
+        fprintf(stderr, "Error: control format length exceeds the datagram.\n");
+        return 0;
+    }
+
     while (msg_proc_bytes < msg_length) {
+
+        if (msg_length - msg_proc_bytes < AVTP_CAN_HEADER_LEN) {
+            return 0;
+        }
 
         acf_pdu = &pdu[proc_bytes + msg_proc_bytes];
         memset(&frame, 0, sizeof(frame));
@@ -181,6 +203,16 @@ static int new_packet(int sk_fd, int can_socket) {
         can_payload = Avtp_Can_GetPayload((Avtp_Can_t*)acf_pdu);
         acf_msg_length = Avtp_Can_GetAcfMsgLength((Avtp_Can_t*)acf_pdu)*4;
         can_payload_length = Avtp_Can_GetCanPayloadLength((Avtp_Can_t*)acf_pdu);
+
+        // The message must hold its header and payload, lie inside the
+        // announced ACF data and fit the CAN frame it is copied to
+        if (acf_msg_length < AVTP_CAN_HEADER_LEN ||
+            acf_msg_length > msg_length - msg_proc_bytes ||
+            AVTP_CAN_HEADER_LEN + can_payload_length > acf_msg_length ||
+            can_payload_length > ((can_variant == AVTP_CAN_FD) ? CANFD_MAX_DLEN : CAN_MAX_DLEN)) {
+            fprintf(stderr, "Error: malformed ACF CAN message.\n");
+            return 0;
+        }
         msg_proc_bytes += acf_msg_length;
 
         // Handle EFF Flag
